@@ -11,7 +11,8 @@ from concurrent.futures import ThreadPoolExecutor
 VERIF = os.path.dirname(os.path.dirname(os.path.abspath(__file__)))
 REPO = os.environ.get("VERIF_REPO", "/repo")
 CCL = os.path.join(REPO, "ccl")
-BUILD = os.path.join(VERIF, "build")
+BUILD = os.environ.get("VERIF_BUILD", os.path.join(VERIF, "build"))   # scratch builds (bin/seedtest) use their own directory
+ENGINE = os.path.join(VERIF, "build", "cxsym")
 GUARD = "CCL_VERIF"
 
 TUS = [
@@ -62,12 +63,13 @@ def tree_hash():
 
 
 def _prune(kind, keep):
+    """keep the current tree's cache entry and the most recent other one (disk space)"""
     d = os.path.join(BUILD, kind)
     if not os.path.isdir(d):
         return
-    for e in os.listdir(d):
-        if e != keep:
-            shutil.rmtree(os.path.join(d, e), ignore_errors=True)
+    others = sorted((e for e in os.listdir(d) if e != keep), key=lambda e: os.path.getmtime(os.path.join(d, e)), reverse=True)
+    for e in others[1:]:
+        shutil.rmtree(os.path.join(d, e), ignore_errors=True)
 
 
 def build_lib_bc(th=None):
